@@ -905,7 +905,9 @@ def main(ctx):
                 '(allow_overwrite=True on existing ids); a case is one (mesh, edits, operation); non-trivial = the operation returned a mesh; distinct = '
                 'distinct (mesh, operation, selection)')
     ctx.trusted += [
-        'translator /verif/translate/c09_cfg.py (three sites, fail-closed)',
+        'translators /verif/translate/c09_cfg.py: three binding sites + two exact bodies; interpreter of '
+        'FEMElementalAttribute._to_first_order over all element types (validated on every run against the running '
+        'function); a region that cannot be read degrades T->H (baseline model + widened correspondence)',
         'hand model coq/C09/Model.v on coq/C09/Table.v + AttrModel.v (vendored copies of the C08 table/block library; numpy unique/isin/argsort, pandas .loc/.iloc '
         'semantics represented there and pinned by the correspondence)',
         'harness glue harness/c09.py, c09_impl.py; for to_surface/to_facets the facet lists are taken '
